@@ -64,6 +64,12 @@ func checkC09(P *core.Program, R *core.Report) {
 		CheckLedgers(P, R, spec)
 	}
 	checkUpdateHelpers(P, R)
+	checkModifiedPersistedX(P, R, modPersistSpec{Rule: "C09-pool-persisted", TypePkg: "x/perpetual/types", TypeName: "Pool",
+		Store: "x/perpetual/keeper.Keeper.SetPool", Subjects: subjects,
+		Scratch: map[string]string{
+			"x/perpetual/keeper.Keeper.HandleOpenEstimation": "open estimation works on a hypothetical position and pool copy, nothing is stored",
+			"x/perpetual/keeper.Keeper.fillMTPData":          "query decoration of a loaded MTP: funding and interest are previewed on copies for display, nothing is stored (C09-*-scratch checks it cannot reach SetMTP/SetPool)",
+		}})
 	checkMTPCounter(P, R, subjects)
 	checkMinCustody(P, R)
 	checkErrorToNil(P, R, subjects)
@@ -238,6 +244,7 @@ func checkMTPCounter(P *core.Program, R *core.Report, subjects map[*ssa.Function
 // checkMinCustody: the minimum-custody check must be passed after custody grew and on AMM
 // balance changes, and its error must propagate.
 func checkMinCustody(P *core.Program, R *core.Report) {
+	checkMinCustodyBody(P, R)
 	const chk = "x/perpetual/keeper.Keeper.CheckLowPoolHealthAndMinimumCustody"
 	const inner = "x/perpetual/keeper.Keeper.CheckMinimumCustodyAmt"
 	isCheck := func(in ssa.Instruction) bool {
@@ -440,4 +447,120 @@ func markFrozenErrorToNil(P *core.Program) {
 			}
 		}
 	}
+}
+
+// tupleFieldRoles: the record fields the idx-th result of fn is made of, followed through
+// module callees that hand the value on as one of their own results (sums of several
+// reads give several names).  It names a tuple slot by what it carries, not by position.
+func tupleFieldRoles(P *core.Program, fn *ssa.Function, idx int, depth int) map[string]bool {
+	out := map[string]bool{}
+	if fn == nil || fn.Blocks == nil || depth > 3 {
+		return out
+	}
+	ff := P.Facts(fn)
+	for _, ex := range ff.Exits() {
+		ret, ok := ex.Instr.(*ssa.Return)
+		if !ok || idx >= len(ret.Results) {
+			continue
+		}
+		for _, o := range ff.OriginsT(ret.Results[idx], func(c *ssa.Call) []ssa.Value {
+			switch core.CalleeName(c.Common()) {
+			case "Add", "Sub":
+				if sc := c.Common().StaticCallee(); sc != nil && sc.Signature.Recv() != nil && core.IsMathType(sc.Signature.Recv().Type()) {
+					return c.Common().Args
+				}
+			}
+			return nil
+		}) {
+			if o.Kind == "call" {
+				if call, ok := o.Val.(*ssa.Call); ok {
+					if sc := call.Common().StaticCallee(); sc != nil && core.InModule(sc) && strings.HasPrefix(o.Path, "#") {
+						j := 0
+						k := 1
+						for k < len(o.Path) && o.Path[k] >= '0' && o.Path[k] <= '9' {
+							j = j*10 + int(o.Path[k]-'0')
+							k++
+						}
+						if k == len(o.Path) {
+							for r := range tupleFieldRoles(P, sc, j, depth+1) {
+								out[r] = true
+							}
+							continue
+						}
+					}
+				}
+			}
+			if i := strings.LastIndex(o.Path, "."); i >= 0 {
+				out[o.Path[i+1:]] = true
+			} else {
+				out["?"+o.Kind] = true
+			}
+		}
+	}
+	return out
+}
+
+// checkMinCustodyBody: the guard itself.  CheckMinimumCustodyAmt must let an asset pass
+// only when its amm pool balance is not below the perpetual pool's *custody* of that denom:
+// the loop continues only under custody ≤ balance, with `custody` a tuple slot of the
+// perpetual balances that carries the Custody fields (not liabilities or collateral) and
+// `balance` the asset's own Token.Amount of the loaded amm pool.
+func checkMinCustodyBody(P *core.Program, R *core.Report) {
+	const key = "x/perpetual/keeper.Keeper.CheckMinimumCustodyAmt"
+	fn := P.Fn(key)
+	if fn == nil {
+		R.Add("C09-min-custody-guard", key, "function", "-", false, "unresolved anchor")
+		return
+	}
+	ff := P.Facts(fn)
+	isCustody := func(v ssa.Value) bool {
+		os := ff.Origins(v)
+		if len(os) == 0 {
+			return false
+		}
+		for _, o := range os {
+			call, ok := o.Val.(*ssa.Call)
+			if o.Kind != "call" || !ok || call.Common().StaticCallee() == nil || !strings.HasPrefix(o.Path, "#") {
+				return false
+			}
+			j, k := 0, 1
+			for k < len(o.Path) && o.Path[k] >= '0' && o.Path[k] <= '9' {
+				j = j*10 + int(o.Path[k]-'0')
+				k++
+			}
+			roles := tupleFieldRoles(P, call.Common().StaticCallee(), j, 0)
+			if len(roles) != 1 || !roles["Custody"] {
+				return false
+			}
+		}
+		return true
+	}
+	isAmmBalance := func(v ssa.Value) bool {
+		return ff.AllOrigins(v, nil, func(o core.Origin) bool {
+			return o.Kind == "call" && strings.HasSuffix(o.Name, "Keeper.GetAmmPool") && strings.Contains(o.Path, "PoolAssets") && strings.HasSuffix(o.Path, ".Token.Amount")
+		})
+	}
+	guarded := func(atoms []*core.Atom) bool {
+		for _, a := range atoms {
+			if a.Rel == core.LE && a.A != nil && a.B != nil && a.A != core.ZeroMarker && a.B != core.ZeroMarker && a.B != core.NilMarker && isCustody(a.A) && isAmmBalance(a.B) {
+				return true
+			}
+		}
+		return false
+	}
+	n, ok := 0, true
+	for _, b := range fn.Blocks {
+		for _, sb := range b.Succs {
+			if !sb.Dominates(b) || len(b.Instrs) == 0 {
+				continue
+			}
+			n++
+			atoms := append(append([]*core.Atom{}, ff.OutFacts(b)...), ff.EdgeFacts(b, sb)...)
+			if !guarded(atoms) {
+				ok = false
+			}
+		}
+	}
+	R.Add("C09-min-custody-guard", key, "next asset only under custody ≤ amm balance", P.Pos(fn.Pos()), ok && n > 0,
+		"the per-asset loop goes on (and the check succeeds) only when the amm pool balance of the asset is not below the perpetual pool's custody of that denom")
 }
